@@ -11,7 +11,7 @@ import vlib
 from checks import apicheck
 from gen_api import hx
 
-MODELLED_SKIP = {"QUIT", "BLPOP", "BRPOP", "MULTI", "EXEC", "DISCARD", "SUBSCRIBE"}
+MODELLED_SKIP = {"QUIT", "BLPOP", "BRPOP", "MULTI", "EXEC", "DISCARD", "SUBSCRIBE"}   # QUIT: its reply never arrives (FINDINGS.md D-1; scripted `quit` cases)
 OPERANDS = [b"k", b"1", b"-1", b"0", b"abc", b"", b"2", b"(1", b"inf", b"NX", b"COUNT", b"MATCH", b"LIMIT", b"WITHSCORES", b"BEFORE", b"5", b"x y", b"\r\n"]
 
 
@@ -68,12 +68,30 @@ def sweep(ctx, names):
     return ops
 
 
+def geo_real_data_cases(c):
+    """the GEO commands on a key whose members lie in neighbouring geohash boxes and far apart, with every option
+    combination"""
+    ops = []
+    for radius, unit in (("1", "km"), ("100", "m"), ("500", "km"), ("0", "km"), ("200", "mi")):
+        for center in (("0", "0"), ("15", "37")):
+            for opts in ([], ["WITHDIST"], ["WITHCOORD"], ["WITHHASH"], ["WITHCOORD", "WITHDIST", "WITHHASH"], ["COUNT", "1"], ["COUNT", "2", "ASC"], ["COUNT", "3", "DESC", "WITHDIST"],
+                         ["COUNT", "1", "ANY"], ["ASC"], ["DESC", "WITHCOORD"], ["COUNT", "0"], ["COUNT", "-1"], ["COUNT"], ["WITHDIST", "COUNT", "1", "WITHCOORD"]):
+                ops.append(c("GEORADIUS", "gk", *center, radius, unit, *opts))
+        for member in ("ne", "Palermo", "nobody"):
+            for opts in ([], ["WITHDIST"], ["WITHCOORD", "WITHDIST", "WITHHASH"], ["COUNT", "1"], ["COUNT", "2", "DESC", "WITHDIST"], ["WITHDIST", "KM"]):
+                ops.append(c("GEORADIUSBYMEMBER", "gk", member, radius, unit, *opts))
+    for cmd in (("GEOPOS", "gk", "ne", "nobody", "Palermo"), ("GEOHASH", "gk", "ne", "nobody"), ("GEODIST", "gk", "ne", "sw"), ("GEODIST", "gk", "ne", "sw", "km"), ("GEODIST", "gk", "ne", "nobody"),
+                ("GEODIST", "gk", "ne", "sw", "parsec"), ("GEOPOS", "nokey", "x"), ("GEOPOS", "s", "x"), ("GEORADIUS", "s", "0", "0", "1", "km"), ("GEORADIUS", "nokey", "0", "0", "1", "km", "COUNT", "1")):
+        ops.append(c(*cmd))
+    return ops
+
+
 def special_sweep(ctx, names):
     """(1) every command of the dispatch table queued inside MULTI and run by EXEC (a handler that replies
     outside the queued closure answers twice at queue time and leaves a hole in EXEC's array);
-    (2) the GEO commands - which have no reply model - on a key whose members lie in neighbouring geohash
-    boxes and far apart, with every option combination. Checked on the implementation alone: the tokens
-    read before the pipelined marker are exactly one complete RESP value."""
+    (2) the GEO commands on a key whose members lie in neighbouring geohash boxes and far apart, with every
+    option combination. Checked on the implementation alone: the tokens read before the pipelined marker are
+    exactly one complete RESP value (the same GEO cases are compared with the model in the `georeal` stream)."""
     rng = ctx.rng
     c = lambda *a: "resp c1 " + " ".join(hx(x) for x in a)
     setup = [("SET", "s", "10"), ("RPUSH", "l", "a", "b", "c"), ("HSET", "h", "f", "1", "g", "2"), ("SADD", "t", "a", "b"), ("ZADD", "z", "1", "a", "2", "b"),
@@ -86,17 +104,7 @@ def special_sweep(ctx, names):
         for arity in (0, 1, 2, 3):
             for args in (args_for.get(arity) or [[]])[: (2 if ctx.tier == "quick" else 4)]:
                 ops += [c("MULTI"), c(name, *args), c("EXEC")]
-    for radius, unit in (("1", "km"), ("100", "m"), ("500", "km"), ("0", "km"), ("200", "mi")):
-        for center in (("0", "0"), ("15", "37")):
-            for opts in ([], ["WITHDIST"], ["WITHCOORD"], ["WITHHASH"], ["WITHCOORD", "WITHDIST", "WITHHASH"], ["COUNT", "1"], ["COUNT", "2", "ASC"], ["COUNT", "3", "DESC", "WITHDIST"],
-                         ["COUNT", "1", "ANY"], ["ASC"], ["DESC", "WITHCOORD"], ["COUNT", "0"], ["COUNT", "-1"], ["COUNT"], ["WITHDIST", "COUNT", "1", "WITHCOORD"]):
-                ops.append(c("GEORADIUS", "gk", *center, radius, unit, *opts))
-        for member in ("ne", "Palermo", "nobody"):
-            for opts in ([], ["WITHDIST"], ["WITHCOORD", "WITHDIST", "WITHHASH"], ["COUNT", "1"], ["COUNT", "2", "DESC", "WITHDIST"], ["WITHDIST", "KM"]):
-                ops.append(c("GEORADIUSBYMEMBER", "gk", member, radius, unit, *opts))
-    for cmd in (("GEOPOS", "gk", "ne", "nobody", "Palermo"), ("GEOHASH", "gk", "ne", "nobody"), ("GEODIST", "gk", "ne", "sw"), ("GEODIST", "gk", "ne", "sw", "km"), ("GEODIST", "gk", "ne", "nobody"),
-                ("GEODIST", "gk", "ne", "sw", "parsec"), ("GEOPOS", "nokey", "x"), ("GEOPOS", "s", "x"), ("GEORADIUS", "s", "0", "0", "1", "km"), ("GEORADIUS", "nokey", "0", "0", "1", "km", "COUNT", "1")):
-        ops.append(c(*cmd))
+    ops += geo_real_data_cases(c)
     return ops
 
 
@@ -447,7 +455,7 @@ def writer_correspond(ctx, h, ops, tag, label):
 
 
 
-def run(ctx, proofs_ok):
+def run_writer(ctx):
     quick = ctx.tier == "quick"
     h = vlib.build_harness(ctx)
     # the reply writer alone against its model: state, backing array and sink after every call
@@ -460,13 +468,100 @@ def run(ctx, proofs_ok):
                                "bare reply writer: random call sequences with payload sizes steered onto the free space and the multiples of 4096, failing flushes, new writers (w, len(buf), err, backing array and sink compared after every call)")
         if ctx.violations:
             return
-    vlib.correspond_stream(ctx, h, big_replies(), "big", "replies larger than every internal buffer, on fresh and used connections, inside and outside MULTI")
+
+
+def quit_cases():
+    """QUIT on its own connection (the model: the reply is buffered, the socket closed before the flush - the client
+    reads end-of-stream), other connections and the keyspace unaffected; QUIT with arguments; the commands without a
+    keyspace effect around it"""
+    c = lambda conn, *a: f"resp {conn} " + " ".join(hx(x) for x in a)
+    ops = ["open a mem"] + [f"conn q{i}" for i in range(4)]
+    ops += [c("q0", "SET", "k", "v"), c("q1", "WATCH", "k"), c("q1", "QUIT"), c("q1", "PING"), c("q0", "GET", "k"), c("q2", "CLIENT", "LIST"),
+            c("q2", "QUIT", "now", "please"), c("q2", "GET", "k"), c("q0", "SET", "k", "w"), c("q3", "MULTI"), c("q3", "SAVE"),
+            c("q3", "CONFIG", "GET", "databases"), c("q3", "CLIENT", "SETNAME", "x"), c("q3", "GEOADD", "g", "1.5", "2.5", "m"), c("q3", "GEOHASH", "g", "m"),
+            c("q3", "EXEC"), c("q3", "ZSCORE", "g", "m"), c("q0", "INFO"), c("q0", "SAVE"), c("q0", "DBSIZE"), "dump"]
+    return ops
+
+
+def geo_table(ctx):
+    """the float operations and geohash functions the GEO model is built from, evaluated by the real code and by the
+    model on the same operands: limits, neighbours of the limits (one unit in the last place), powers of two,
+    subnormals, infinities, halfway cases of the division, random bit patterns; every 26-bit corner of the bit
+    interleaving; decimal text with fractions and exponents"""
+    import struct
+    from gen_api import fbits
+    rng = ctx.rng
+    quick = ctx.tier == "quick"
+    def nxt(x, k=1):
+        b = struct.unpack(">Q", struct.pack(">d", x))[0]
+        return struct.unpack(">d", struct.pack(">Q", (b + k) % 2**64))[0]
+    base = [0.0, -0.0, 1.0, -1.0, 2.0, 0.5, 3.0, 10.0, 180.0, -180.0, 360.0, 85.05112878, -85.05112878, 170.10225756, 90.0, -90.0, 67108864.0, 1e-300, 5e-324,
+            2.2250738585072014e-308, 1.7976931348623157e308, float("inf"), float("-inf"), 13.361389, 38.115556, 0.1, 0.3, 1 / 3.0, 9007199254740992.0,
+            9007199254740993.0, 4503599627370496.0, 9223372036854775808.0, 18446744073709551616.0, -9223372036854775808.0, 4294967296.0, 4294967295.5, 1e19, -1e19, 1e30]
+    vals = []
+    for v in base:
+        vals += [v] if v in (float("inf"), float("-inf")) else [v, nxt(v), nxt(v, -1)]
+    for _ in range(40 if quick else 400):
+        vals.append(struct.unpack(">d", struct.pack(">Q", rng.getrandbits(64)))[0])
+    vals = [v for v in vals if v == v]
+    ops = ["geo consts"]
+    for _ in range(700 if quick else 8000):
+        a, b = rng.choice(vals), rng.choice(vals)
+        ops.append(f"geo {rng.choice(['sub', 'div', 'div', 'add', 'mul'])} {fbits(a)} {fbits(b)}")
+    for v in vals:
+        ops += [f"geo u64 {fbits(v)}", f"geo u32 {fbits(v)}"]
+    ints = [0, 1, 2, 2**26 - 1, 2**26, 2**32 - 1, 2**52 - 1, 2**52, 2**53, 2**53 + 1, 2**53 + 3, 2**54 - 1, 2**63 - 1, 2**63, 2**63 + 1025, 2**64 - 1, 2**64 - 1024, 3479099956230698]
+    ints += [rng.getrandbits(rng.choice([20, 40, 52, 54, 63, 64])) for _ in range(60 if quick else 600)]
+    for n in ints:
+        ops += [f"geo fromu64 {n}", f"geo dec {n}", f"geo dil {n}", f"geo b32 {n}"]
+    w32 = [0, 1, 2, 0x5555, 0xAAAA, 0xFFFF, 0x10000, 2**26 - 1, 2**26, 2**31, 2**32 - 1, 0x12345678, 0xDEADBEEF] + [rng.getrandbits(32) for _ in range(40 if quick else 400)]
+    for _ in range(150 if quick else 2000):
+        ops.append(f"geo il {rng.choice(w32)} {rng.choice(w32)}")
+    lons = [-180.0, nxt(-180.0), nxt(-180.0, -1), 180.0, nxt(180.0), nxt(180.0, -1), 179.99999999999997, 0.0, -0.0, 13.361389, 15.087269, 200.0, -200.0, float("inf"), 1e-300]
+    lats = [-85.05112878, nxt(-85.05112878), nxt(-85.05112878, -1), 85.05112878, nxt(85.05112878), nxt(85.05112878, -1), 0.0, 38.115556, 90.0, -90.0, 60.0, float("-inf")]
+    for lo in lons:
+        for la in lats:
+            ops.append(f"geo enc {fbits(lo)} {fbits(la)}")
+    for _ in range(150 if quick else 3000):
+        ops.append(f"geo enc {fbits(rng.uniform(-181, 181))} {fbits(rng.uniform(-86, 86))}")
+    texts = ["13.361389", "38.115556", "0.1", "-0.1", ".5", "5.", "1e1", "1E-3", "1.5e2", "85.05112878", "179.99999999999997", "0.000001", "123456789.123456789",
+             "1e22", "1e23", "9007199254740993", "9007199254740992.5", "2.2250738585072011e-308", "4.9e-324", "2.4e-324", "2.5e-324", "1.7976931348623157e308",
+             "1.7976931348623159e308", "1e309", "-1e309", "1e-400", "0e999", "1e99999", "+1.5", "-.5e1", "00.100", "1.", "-0.0", "0.30000000000000004",
+             "0.1e-1", "1e", "e1", ".", "1.2.3", "--1", "1e+", "inf", "-Infinity", "nan", "abc", "", "1 "]
+    for _ in range(60 if quick else 1500):
+        k = rng.choice([1, 3, 8, 17, 25])
+        texts.append(("-" if rng.random() < 0.3 else "") + str(rng.randrange(0, 10**rng.choice([1, 3, 9]))) + "." + "".join(rng.choice("0123456789") for _ in range(k))
+                     + (rng.choice(["", "", "e5", "e-7", "E+20", "e-320"])))
+    for t in texts:
+        ops.append("geo parse " + hx(t))
+    return ops
+
+
+def run(ctx, proofs_ok):
+    run_writer(ctx)
+    if ctx.violations:
+        return
+    h0 = vlib.build_harness(ctx)
+    vlib.correspond_stream(ctx, h0, big_replies(), "big", "replies larger than every internal buffer, on fresh and used connections, inside and outside MULTI")
+    if ctx.violations:
+        return
+    vlib.correspond_stream(ctx, h0, geo_table(ctx), "geoarith", "float subtraction / division / conversions, decimal text, geohash encode / decode / interleave on limits, neighbours of limits and random operands (real code against the model's exact arithmetic)", shrink=False)
+    if ctx.violations:
+        return
+    c1 = lambda *a: "resp c1 " + " ".join(hx(x) for x in a)
+    geo_ops = ["open a mem", "conn c1", c1("SET", "s", "10"),
+               c1("GEOADD", "gk", "0.0001", "0.0001", "ne", "-0.0001", "0.0001", "nw", "0.0001", "-0.0001", "se", "-0.0001", "-0.0001", "sw", "13.361389", "38.115556", "Palermo", "15.087269", "37.502669", "Catania")]
+    geo_ops += geo_real_data_cases(c1) + ["dump"]
+    vlib.correspond_stream(ctx, h0, geo_ops, "georeal", "GEO commands on real data (neighbouring boxes, far apart), every option combination: replies against the model (members and distances relational, coordinates as bit patterns, hashes exact)")
+    if ctx.violations:
+        return
+    vlib.correspond_stream(ctx, h0, quit_cases(), "quit", "QUIT, CLIENT, CONFIG, INFO, SAVE and GEOADD / GEOHASH queued in MULTI: scripted cases on four connections")
     if ctx.violations:
         return
     apicheck.run_resp_streams(ctx, [
-        {"label": "all command families on one connection (every reply token compared with the model)", "fams": ["strings", "keyspace", "lists", "hashes", "sets", "zs"],
+        {"label": "all command families on one connection (every reply token compared with the model)", "fams": ["strings", "keyspace", "lists", "hashes", "sets", "zs", "geo", "srv"],
          "n": (4000, 12000), "count": (3, 30), "conns": 1},
-        {"label": "all command families with transactions on 2 connections", "fams": ["strings", "keyspace", "lists", "hashes", "sets", "zs", "tx"],
+        {"label": "all command families with transactions on 2 connections", "fams": ["strings", "keyspace", "lists", "hashes", "sets", "zs", "geo", "srv", "tx"],
          "n": (3000, 10000), "count": (2, 20), "conns": 2},
     ])
     if ctx.violations:
